@@ -1607,3 +1607,49 @@ V("C05", "benign_discard_events_tuple_restore", "benign", None, (Z, """        p
         parameterized.param._events = events
 """, """        parameterized.param._state_watchers, parameterized.param._events = watchers, events
 """))
+
+# async model
+V("C10", "async_ref_cleanup_removes_any_registration", "fire", "R10.y", (Z, """            if self_.self._param__private.async_refs.get(pname) is current_task:
+                del self_.self._param__private.async_refs[pname]""", """            if pname in self_.self._param__private.async_refs:
+                del self_.self._param__private.async_refs[pname]"""))
+V("C10", "async_ref_applies_result_in_finally", "fire", "R10.y", (Z, """                try:
+                    new_obj = await awaitable
+                except Skip:
+                    pass
+                else:
+                    with _syncing(self_.self, (pname,)):
+                        try:
+                            self_.update({pname: new_obj})
+                        except Skip:
+                            pass""", """                new_obj = Undefined
+                try:
+                    new_obj = await awaitable
+                except Skip:
+                    pass
+                except BaseException:
+                    new_obj = self_.self._param__private.values.get(pname, Undefined)
+                    raise
+                finally:
+                    if new_obj is not Undefined:
+                        with _syncing(self_.self, (pname,)):
+                            self_.update({pname: new_obj})"""))
+V("C10", "benign_async_ref_skip_flag", "benign", None, (Z, """                try:
+                    new_obj = await awaitable
+                except Skip:
+                    pass
+                else:
+                    with _syncing(self_.self, (pname,)):
+                        try:
+                            self_.update({pname: new_obj})
+                        except Skip:
+                            pass""", """                skipped = False
+                try:
+                    new_obj = await awaitable
+                except Skip:
+                    skipped = True
+                if not skipped:
+                    with _syncing(self_.self, (pname,)):
+                        try:
+                            self_.update({pname: new_obj})
+                        except Skip:
+                            pass"""))
